@@ -175,6 +175,9 @@ impl Renderer {
                 out.push_str(&format!("{}}}", "  ".repeat(ind)));
                 out
             }
+            // ("bare": the body is written without braces: `loop match e { .. }`, `while c match e { .. }`)
+            "loop" if s["bare"] == true => format!("loop {}", self.stmt(&s["b"], ind)),
+            "while" if s["bare"] == true => format!("while {} {}", self.expr(&s["c"]), self.stmt(&s["b"], ind)),
             "loop" => format!("loop {}", self.block(&s["b"], ind)),
             "while" => format!("while {} {}", self.expr(&s["c"]), self.block(&s["b"], ind)),
             "whileset" => format!(
